@@ -27,7 +27,11 @@ def generate(L):
     if not managed:
         raise L.GenError("command_uses_managed_hooks: no commands found")
     ex = L.find_fn(src, "exit_with_status", rel)
-    mirrors = "libc::raise(sig)" in ex and "status.code().unwrap_or(1)" in ex
+    # a signalled child is mirrored by resetting THAT signal's disposition and re-raising it (the Rust runtime
+    # starts with SIGPIPE ignored: without the reset raise(SIGPIPE) returns and the wrapper would exit normally)
+    exn = re.sub(r"\s+", " ", L.strip_comments(ex))
+    mirrors = bool(re.search(r"if let Some\(sig\) = status\.signal\(\) \{ unsafe \{ libc::signal\(sig, libc::SIG_DFL\); "
+                             r"libc::raise\(sig\); \}", exn)) and "status.code().unwrap_or(1)" in ex
     # process::exit inside hook bodies
     hooks_dir = os.path.join(L.REPO, "src", "commands", "hooks")
     exits = []
